@@ -202,8 +202,14 @@ pub fn run_case(tape: &mut Tape, tier: Tier, p: &CaseParams) -> CaseOutcome {
   }
   let mut out = CaseOutcome::default();
   let cfg = GenCfg::basic();
-  let world = crate::checks::worlds::gen_any_world(tape, &cfg);
+  let mut world = crate::checks::worlds::gen_any_world(tape, &cfg);
+  let deferred_shape =
+    tape.draw(Stream::World, 5) == 4 && add_deferred_shape(tape, &mut world);
   let mut sem = SemOpts::draw(tape);
+  if deferred_shape {
+    sem.unstable_text = true;
+    out.count("probe.asset_then_module_world", 1);
+  }
   sem.with_locker = world.lockfile.present || tape.draw(Stream::Options, 3) == 2;
   sem.prefer_cached_jsr = !world.registry.packages.is_empty()
     && tape.draw(Stream::Options, 4) == 3;
@@ -318,6 +324,52 @@ pub fn run_case(tape: &mut Tape, tier: Tier, p: &CaseParams) -> CaseOutcome {
     }));
   }
   out
+}
+
+/// Modules that are requested as a module while their asset load (`with {
+/// type: "text" }`) is still outstanding: the builder defers the second load
+/// until the pending ones are done and then starts the deferred ones in the
+/// iteration order of `PendingState.deferred`. The deferred modules share a
+/// missing dependency, so the order is visible in that error's referrer.
+fn add_deferred_shape(tape: &mut Tape, w: &mut crate::world::World) -> bool {
+  use crate::world::Form;
+  use crate::world::Item;
+  use crate::world::Lang;
+  use crate::world::ModuleDesc;
+  let Some(root) = w.roots.first().cloned() else {
+    return false;
+  };
+  let Some(mut rd) = w.descs.get(&root).cloned() else {
+    return false;
+  };
+  if !rd.lang.is_script()
+    || rd.lang.is_declaration()
+    || !(root.starts_with("file:///") || root.starts_with("http"))
+  {
+    return false;
+  }
+  let base = root[..root.rfind('/').map(|i| i + 1).unwrap_or(0)].to_string();
+  let k = tape.range(Stream::World, 2, 4);
+  let mut user = ModuleDesc::new(format!("{}dfr_user.ts", base), Lang::Ts);
+  let mut front = vec![Item::new(Form::SideEffect, "./dfr_user.ts")];
+  for i in 0..k {
+    let mut d = ModuleDesc::new(format!("{}dfr{}.ts", base, i), Lang::Ts);
+    d.items
+      .push(Item::new(Form::SideEffect, "./dfr_missing.ts"));
+    w.add_desc(d);
+    let mut it = Item::new(Form::Default, format!("./dfr{}.ts", i));
+    it.attr = Some("text".into());
+    front.push(it);
+    user
+      .items
+      .push(Item::new(Form::SideEffect, format!("./dfr{}.ts", i)));
+  }
+  let rot = tape.draw(Stream::World, k) as usize;
+  user.items.rotate_left(rot);
+  w.add_desc(user);
+  rd.items.splice(0..0, front);
+  w.add_desc(rd);
+  true
 }
 
 pub fn end_class(e: &RunEnd) -> &'static str {
